@@ -2,6 +2,7 @@
 package core
 
 import (
+	"go/types"
 	"encoding/json"
 	"fmt"
 	"go/token"
@@ -160,6 +161,13 @@ func (c *Ctx) Options() *ir.Options {
 				}
 				if o := f.Origin(); o != nil && o.Pkg != nil {
 					return followed(o.Pkg.Pkg.Path())
+				}
+				// synthetic wrappers of a method (the thunk of a method expression `T.m`, the bound closure of a method
+				// value): one call of that method
+				if f.Synthetic != "" {
+					if obj, ok := f.Object().(*types.Func); ok && obj != nil && obj.Pkg() != nil {
+						return followed(obj.Pkg().Path())
+					}
 				}
 				return false
 			}
